@@ -75,6 +75,21 @@ inductive Raw : Ctx → PExpr → Ty → Bool → Bool → List Ty → Prop wher
   | callDiv {Γ base args tb xb cb lb} :
       HasType Γ true base tb xb cb lb → callee tb = .div →
       Raw Γ (.call base args) .unknown xb false (.unknown :: lb)
+  /-- `spawn name(…)` starts a function *of the program* (a name no variable — local, parameter,
+  global, builtin — stands for) on a new thread; no function value travels to that thread, and the
+  expression itself has no value -/
+  | spawnFn {Γ name args tb ps ret xb cb lb xa la} :
+      HasType Γ true (.ident name) tb xb cb lb → callee tb = .fn ps ret → lookupTy name Γ.vars = Option.none →
+      args.length = ps.length → SpawnArgsOK Γ (ps.map (·.2)) Option.none args xa la →
+      Raw Γ (.spawn name args) .null (xb || xa) false (.null :: (lb ++ la))
+  | spawnVar {Γ name args tb ps rest ret xb cb lb xa la} :
+      HasType Γ true (.ident name) tb xb cb lb → callee tb = .var ps rest ret → lookupTy name Γ.vars = Option.none →
+      (ps.length = 0 ∨ ps.length ≤ args.length) → SpawnArgsOK Γ ps (some rest) args xa la →
+      Raw Γ (.spawn name args) .null (xb || xa) false (.null :: (lb ++ la))
+  /-- spawning something that never yields a value -/
+  | spawnDiv {Γ name args tb xb cb lb} :
+      HasType Γ true (.ident name) tb xb cb lb → callee tb = .div →
+      Raw Γ (.spawn name args) .null xb false (.null :: lb)
   | index {Γ b i tb xb cb lb ti xi ci li t} :
       HasType Γ true b tb xb cb lb → HasType Γ true i ti xi ci li → indexRule tb ti (isStrLit i) = some t →
       Raw Γ (.index b i) t (xb || xi) cb (t :: (lb ++ li))
@@ -124,6 +139,13 @@ inductive ArgsOK : Ctx → List Ty → Option Ty → PExprs → Bool → List Ty
   | cons {Γ ps rest a as t x c l x' l'} :
       HasType Γ true a t x c l → t.kind ≠ .null → Compat true t (argParam ps rest) → ArgsOK Γ ps.tail rest as x' l' →
       ArgsOK Γ ps rest (.cons a as) (x || x') (l ++ l')
+/-- arguments of a `spawn`: as for a call, and none of them is a function value -/
+inductive SpawnArgsOK : Ctx → List Ty → Option Ty → PExprs → Bool → List Ty → Prop where
+  | nil {Γ ps rest} : SpawnArgsOK Γ ps rest .nil false []
+  | cons {Γ ps rest a as t x c l x' l'} :
+      HasType Γ true a t x c l → t.kind ≠ .null → t.kind ≠ .fn → Compat true t (argParam ps rest) →
+      SpawnArgsOK Γ ps.tail rest as x' l' →
+      SpawnArgsOK Γ ps rest (.cons a as) (x || x') (l ++ l')
 /-- match arms: joined result type and the (last) default arm's recorded types -/
 inductive ArmsOK : Ctx → Ty → Ty → Option (List Ty) → PArms → Ty → Option (List Ty) → Bool → List Ty → Prop where
   | nil {Γ ctl rt d} : ArmsOK Γ ctl rt d .nil rt d false []
